@@ -256,7 +256,10 @@ pub proof fn lemma_prog_move(u0: UnitPropagate, u1: UnitPropagate, u2: UnitPropa
             let c = u1.cnf.clauses@[i as int]@;
             let un = unassigned(c, m);
             &&& un.len() >= 2
-            &&& newl == (if u1.list(un[0]).contains(i) { un[1] } else { un[0] })
+            // the new watcher is an unassigned literal of the clause that does not watch it yet -- or, as the code does when the
+            // first unassigned literal already watches it, the second unassigned literal
+            &&& c.contains(newl) && m.val(newl.lbl) is None
+            &&& (!u1.list(newl).contains(i) || (u1.list(un[0]).contains(i) && newl == un[1]))
             &&& move_rel(u1, u2, nl, w, newl, i)
         }),
     ensures prog(u0, u2, m0, m, nl, w),
@@ -269,7 +272,6 @@ pub proof fn lemma_prog_move(u0: UnitPropagate, u1: UnitPropagate, u2: UnitPropa
     let un = unassigned(c, m);
     lemma_unassigned_members(c, m, c.len() as int);
     assert(c.contains(un[0]) && c.contains(un[1]) && m.val(un[0].lbl) is None && m.val(un[1].lbl) is None);
-    assert(c.contains(newl) && m.val(newl.lbl) is None);
     // labels of the clause are in range
     let pn = choose|p: int| 0 <= p < c.len() && c[p] == newl;
     assert(cs[i as int][pn] == newl);
@@ -301,7 +303,8 @@ pub proof fn lemma_move_winv(u1: UnitPropagate, u2: UnitPropagate, m: PartialMod
             let un = unassigned(c, m);
             &&& i < u1.cnf.clauses@.len() && c.len() >= 2 && c.contains(newl)
             &&& un.len() >= 2
-            &&& newl == (if u1.list(un[0]).contains(i) { un[1] } else { un[0] })
+            &&& m.val(newl.lbl) is None
+            &&& (!u1.list(newl).contains(i) || (u1.list(un[0]).contains(i) && newl == un[1]))
             &&& move_rel(u1, u2, nl, w, newl, i)
         }),
     ensures u2.winv(),
@@ -355,7 +358,8 @@ pub proof fn lemma_move_winv(u1: UnitPropagate, u2: UnitPropagate, m: PartialMod
                 if newl != o {
                     assert(u2.list(newl).contains(k as usize) && u2.list(o).contains(k as usize));
                 } else {
-                    // newl == o watches i already, so the code saw un[0] watching i and took un[1] == o; then un[0] != o watches i
+                    // newl == o watches i already, so (second alternative) un[0] watches i and newl is un[1] == o; then un[0] != o watches i
+                    assert(u1.list(newl).contains(i));
                     assert(u1.list(un[0]).contains(i));
                     assert(norm1(c)) by { reveal(norm_ok); assert(norm1(cs[i as int]@)); }
                     lemma_first_two_differ(c, m);
